@@ -459,11 +459,15 @@ class NestedDictRAMDataStore(datastore.DataStore):
             'No such study:', s_resource.name
         ) from e
       # Split the trial-related metadata by Trial.
-      split_metadata: DefaultDict[str, List[UnitMetadataUpdate]] = (
+      split_metadata: DefaultDict[int, List[UnitMetadataUpdate]] = (
           collections.defaultdict(list)
       )
+      # (By the Trial's number: '1' and '01' name the same Trial, and the updates
+      # of one Trial must be applied in the order they were given.)
       for md in copy.deepcopy(trial_metadata):
-        split_metadata[md.trial_id].append(md)
+        split_metadata[s_resource.trial_resource(md.trial_id).trial_id].append(
+            md
+        )
       # Check that every Trial exists before anything is written, so that a
       # failed update changes nothing.
       for trial_id in split_metadata:
